@@ -116,6 +116,13 @@ class Ctx:
                             vals.add(v)
                     if len(vals) == 1 and None not in vals:
                         return vals.pop()
+        if r is None and self.assumptions and subj[0] == "call" and subj[1].split("::")[-1] in ("then_some", "then") and "bool" in subj[1] and subj[2]:
+            # cond.then_some(x) is Some exactly when cond holds in this world
+            v_ = self._assumed(subj[2][0])
+            if v_[0] == "const" and v_[1] == "bool":
+                return bool(v_[2])
+        if r is None and self.assumptions and subj[0] == "call" and subj[1].split("::")[-1] in ("is_ok_and", "is_some_and") and False:
+            pass
         if r is None and self.assumptions and subj[0] == "call" and subj[1] in ("std::option::Option::and_then", "std::result::Result::and_then") and len(subj[2]) == 2 and _d < 4:
             # x.and_then(f) is Some / Ok exactly when x is and f(payload of x) is
             inner = self._assumed_ok(subj[2][0], _d)
@@ -416,7 +423,16 @@ class Ctx:
                 rest = [n for v, n in variants.items() if v not in used]
                 for n in rest:
                     m.setdefault(n, []).append(t["otherwise"])
-                out.append((bi, ("variant", term[1], m, adt)))
+                at_ = ("variant", term[1], m, adt)
+                # `cond.then_some(x).ok_or(e)?` / `if let Some(_) = cond.then(..)`: a test of `cond` itself
+                rt_ = result_test(at_)
+                if rt_ is not None and rt_[0][0] == "call" and rt_[0][1].split("::")[-1] in ("then_some", "then") and "bool" in rt_[0][1] and rt_[0][2]:
+                    c_ = rt_[0][2][0]
+                    neg_ = False
+                    while c_[0] == "un" and c_[1] == "Not":
+                        c_, neg_ = c_[2], not neg_
+                    at_ = ("bool", c_, {True: (rt_[2] if neg_ else rt_[1]), False: (rt_[1] if neg_ else rt_[2])})
+                out.append((bi, at_))
             elif ty == "bool":
                 neg = False
                 while term[0] == "un" and term[1] == "Not":
